@@ -46,7 +46,40 @@ __CPROVER_ensures(DB_INV(self->buffer_))
 __CPROVER_assigns(self->buffer_->pos_, self->faces_added, self->max_index_p1, self->num_points_set, self->num_points_was_set);
 
 #ifdef VERIF_CBMC
+#ifdef SEQ_INLINE
+/* bodies of the stand-ins for the fully inlined format lemma */
+uint16_t MSD_bitstream_version(const struct MSD *self) { return self->version; }
+void Mesh_AddFace(struct MSD *self, const struct Face *f) { self->faces_added++; for (int k = 0; k < 3; ++k) if ((uint64_t)f->v[k] + 1 > self->max_index_p1) self->max_index_p1 = (uint64_t)f->v[k] + 1; }
+void PointCloud_set_num_points(struct MSD *self, uint32_t n) { self->num_points_set = n; self->num_points_was_set = true; }
+uint32_t seq_scratch[4];
+uint32_t *alloc_u32_array(struct MSD *self, uint32_t n) { __CPROVER_assert(n <= 3, "stub: index buffer model capacity"); return seq_scratch; }
+bool DecodeSymbols_stub(uint32_t num_values, int num_components, struct DecoderBuffer *src_buffer, uint32_t *out_values) { return false; }
+#include "core_helpers.h"
+#include "core_slice.c"
+#endif
 #include "seqmesh_slice.c"
 void h_enf_MSD_DecodeConnectivity(void) { GHOSTS(); struct MSD *m; MSD_DecodeConnectivity(m); HARNESS_END(); }
 void h_enf_MSD_DecodeAndDecompressIndices(void) { GHOSTS(); struct MSD *m; uint32_t nf, np; MSD_DecodeAndDecompressIndices(m, nf, np); HARNESS_END(); }
+#endif
+
+#if defined(VERIF_CBMC) && defined(SEQ_INLINE)
+/* seqmesh.fmt.index_width (C05): for bitstream 2.2, one face, raw indices (connectivity method 1): the width of a stored index is pinned to
+ * the declared number of points: < 256 -> 1 byte, < 65536 -> 2 bytes, < 2^21 -> varint, otherwise 4 bytes.  Everything inlined. */
+void h_seq_index_width(void) {
+  uint32_t np; uint8_t idx[12];
+  __CPROVER_assume(np >= 3);
+  char store[40] = {0};
+  struct EncoderBuffer eb; eb.buffer_.data = store; eb.buffer_.size = 0; eb.buffer_.cap = 40; eb.bit_encoder_ = 0; eb.bit_encoder_reserved_bytes_ = 0; eb.encode_bit_sequence_size_ = false;
+  EncodeVarint_u32(1, &eb); EncodeVarint_u32(np, &eb); uint8_t method = 1; EncoderBuffer_Encode_u8(&eb, &method);
+  size_t header = eb.buffer_.size;                       /* indices 0,1,2 follow as zero bytes except the low byte of each */
+  size_t w = np < 256 ? 1 : np < 65536 ? 2 : np < (1u << 21) ? 1 /* varint of a value < 128 */ : 4;
+  store[header] = 0; store[header + w] = 1; store[header + 2 * w] = 2;
+  struct DecoderBuffer db; db.data_ = store; db.data_size_ = 40; db.pos_ = 0; db.bit_mode_ = false; db.bitstream_version_ = DRACO_BITSTREAM_VERSION(2, 2);
+  struct MSD m; m.buffer_ = &db; m.version = DRACO_BITSTREAM_VERSION(2, 2); m.faces_added = 0; m.max_index_p1 = 0; m.num_points_set = 0; m.num_points_was_set = false; m.remaining_at_entry = 40; m.largest_alloc_bytes = 0;
+  bool ok = MSD_DecodeConnectivity(&m);
+  __CPROVER_assert(ok && m.faces_added == 1 && m.num_points_set == np, "seqmesh.fmt.decodes");
+  __CPROVER_assert((size_t)db.pos_ == header + 3 * w, "seqmesh.fmt.index_width_pinned_to_num_points");
+  __CPROVER_assert(m.max_index_p1 == 3, "seqmesh.fmt.indices_read_at_pinned_width");
+  HARNESS_END();
+}
 #endif
